@@ -675,6 +675,10 @@ class Fxp():
             if set_inaccuracy and val.status['inaccuracy']:
                 self.status['inaccuracy'] = True
 
+            # fewer fractional bits than the source: the re-scaled raw value is fractional until it is rounded
+            if vdtype == int and self.n_frac < val.n_frac:
+                vdtype = float
+
             # force return raw value for better precision
             val = val.val * 2**(self.n_frac - val.n_frac)
             raw = True
